@@ -42,6 +42,44 @@ var c13Programs = []struct{ name, prog, query string }{
 	{"consult", "spin :- spin.", "consult(loopdir)."},
 	{"consultinit", "spin :- spin.", "findall(x, consult(loopinit), _)."},
 	{"ensureloaded", "spin :- spin.", "EXEC::- ensure_loaded(nested)."},
+	// built-ins walking CYCLIC lists (created by an unchecked unification) with and without a bound on
+	// the walk: each call must come back (error, failure) so that the loop around it stays cancellable
+	{"lengthcyclic", "spin :- \\+ (L = [a|L], length(L, 4611686018427387904)), spin.", "spin."},
+	{"lengthcyclicvar", "spin :- catch((L = [a|L], length(L, _)), _, true), spin.", "spin."},
+	{"lengthcyclicsmall", "spin :- \\+ (L = [a,b|L], length(L, 7)), spin.", "spin."},
+	{"atomcharscyclic", "spin :- catch((L = [a|L], atom_chars(_, L)), _, true), spin.", "spin."},
+	{"atomcodescyclic", "spin :- catch((L = [0'a|L], atom_codes(_, L)), _, true), spin.", "spin."},
+	{"sortcyclic", "spin :- catch((L = [a|L], sort(L, _)), _, true), spin.", "spin."},
+	{"keysortcyclic", "spin :- catch((L = [a-1|L], keysort(L, _)), _, true), spin.", "spin."},
+	{"appendcyclic", "spin :- catch((L = [a|L], append(L, [x], _)), _, true), spin.", "spin."},
+	{"nth0cyclicsmall", "spin :- L = [a,b,c|L], nth0(1000, L, E), E == b, spin.", "spin."},
+	{"membercyclic", "", "L = [a|L], member(z, L)."},
+	{"univcyclic", "spin :- catch((L = [f|L], _ =.. L), _, true), spin.", "spin."},
+	{"lengthpartial", "", "length([a,b|T], N), N < 0."},
+	{"subatom", "", "repeat, sub_atom(abcdefghij, B, L, A, S), S == zz."},
+	{"atomconcat", "", "repeat, atom_concat(X, Y, abcdefghij), X == zz."},
+	{"setof", "g(X) :- repeat, X = 1.", "setof(X, g(X), L)."},
+	{"bagof", "g(X) :- repeat, X = 1.", "bagof(X, g(X), L)."},
+	{"callN", "lp :- lp.", "call(call, call, lp)."},
+	{"once", "lp :- lp.", "once(lp)."},
+	{"ifthenelse", "lp :- lp.", "( lp -> true ; true )."},
+	{"phrase", "s --> s.", "phrase(s, [a], _)."},
+	{"retractloop", ":- dynamic(c/1). c(0).", "repeat, retract(c(N)), N1 is N + 1, assertz(c(N1)), fail."},
+	{"copyterm", "", "repeat, copy_term(f(X, Y, X), Z), Z == a."},
+	{"readterm", "", "repeat, catch(read_term(user_input, T, []), _, true), T == zz."},
+	{"writeloop", "", "repeat, write(a), fail."},
+	{"oploop", "", "repeat, op(200, xfx, foo), current_op(_, _, foo), fail."},
+	{"charconv", "", "repeat, current_char_conversion(_, _), fail."},
+	{"termvars", "", "repeat, term_variables(f(_, _, _), _), fail."},
+	{"arith", "", "repeat, X is 2 ** 10 + max(1, 2) * 3 mod 7, X < 0."},
+	{"throwloop", "", "repeat, catch(throw(x), x, fail)."},
+	{"halt0no", "lp :- lp.", "catch(lp, _, true)."},
+}
+
+// programs on which the UNCHANGED code does not come back (known finding C13/K1): only in the corpus,
+// never drawn by the generator
+var c13KnownStuck = []struct{ name, prog, query string }{
+	{"nth0cyclichuge", "", "L = [a|L], nth0(4611686018427387904, L, _)."},
 }
 
 var c13Files = fstest.MapFS{
@@ -72,6 +110,11 @@ func runC13(payload string) string {
 	f := strings.Split(payload, " | ")
 	var prog, query string
 	for _, p := range c13Programs {
+		if p.name == f[0] {
+			prog, query = p.prog, p.query
+		}
+	}
+	for _, p := range c13KnownStuck {
 		if p.name == f[0] {
 			prog, query = p.prog, p.query
 		}
